@@ -176,6 +176,7 @@ Qed.
 Lemma h_sp_flags : forall b n h s h1 s1, h_sp E C fault b n h s = (h1, s1) -> flags_le (s_fl s) (s_fl s1).
 Proof.
   intros b n h s h1 s1 H. unfold h_sp in H.
+  destruct (c_nosp C); [inversion H; subst; apply flags_le_refl|].
   destruct (exec_sp E fault b n h s) as [d s0] eqn:Ex. apply exec_sp_flags in Ex.
   destruct (c_report C).
   - inversion H; subst. rewrite Ex. apply flags_le_refl.
